@@ -439,6 +439,12 @@ impl PublicBatchAggregator {
         self.proving.verify(proof)
     }
 
+    /// The pool behind this aggregator, for the simulator's oracles.
+    #[cfg(quantus_network_qp_zk_circuits_verif)]
+    pub fn verif_pool(&self) -> &ProofPool {
+        &self.pool
+    }
+
     /// Common circuit data of the public-batch (output) circuit.
     pub fn public_batch_common(&self) -> &CommonCircuitData<F, D> {
         &self.proving.verifier.common
